@@ -6,41 +6,73 @@ open KeepVerif.C19
 def hexBytes (s : String) : Option Bytes := (parseHex s).map (·.map UInt8.toNat)
 def showBytes (b : Bytes) : String := showHex (b.map UInt8.ofNat)
 
-def known (ty : String) : Bool := (unmarshal ty []).isSome || sweepOnly.contains ty
+/-- `<kind char><hex>=<hex>|!` entries separated by commas -/
+def parseOracle (s : String) : Option Oracle :=
+  (s.splitOn ",").mapM fun e =>
+    match e.splitOn "=" with
+    | [k, v] =>
+      match k.toList with
+      | c :: h => do
+        let b ← hexBytes (if h.isEmpty then "-" else String.ofList h)
+        let r ← if v = "!" then some none else (hexBytes (if v.isEmpty then "-" else v)).map some
+        pure (c.toNat, b, r)
+      | [] => none
+    | _ => none
+
+structure Op where
+  ty : String
+  input : Bytes
+  orc : Oracle
+  wf : Bool
+
+def parseOp (line : String) : Option Op :=
+  match splitWs line with
+  | ty :: h :: rest => do
+    let input ← hexBytes h
+    let wf := rest.contains "wf"
+    let os := rest.filter (·.startsWith "o:")
+    if rest.any (fun t => t != "wf" && !t.startsWith "o:") || os.length > 1 || rest.length > 2 then none
+    let orc ← match os with
+      | [o] => parseOracle (o.drop 2).toString
+      | _ => some []
+    pure ⟨ty, input, orc, wf⟩
+  | _ => none
+
+def known (ty : String) : Bool := (unmarshalD [] false ty []).isSome
 
 def model (line : String) : String :=
-  match splitWs line with
-  | [ty, h] =>
-    match hexBytes h with
-    | some bs =>
-      match unmarshal ty bs with
-      | some (some out) => "ok " ++ showBytes out
-      | some none => "err"
-      | none => if sweepOnly.contains ty then "SKIP" else "bad-op"
-    | none => "bad-op"
-  | _ => "bad-op"
+  match parseOp line with
+  | some op =>
+    if !known op.ty then "bad-op" else
+    match unmarshal op.orc op.ty op.input with
+    | some (some out) => "ok " ++ showBytes out ++ " idem"
+    | some none => "err"
+    | none => "SKIP"
+  | none => "bad-op"
 
 def parseObs (obs : String) : Obs :=
   match splitWs obs with
   | ["err"] => .err
-  | ["ok", h] => match hexBytes h with
-    | some b => .ok b
+  | ["ok", h, flag] => match hexBytes h with
+    | some b => if flag = "idem" then .ok b true else if flag = "UNSTABLE" then .ok b false else .other obs
     | none => .other obs
   | _ => .other obs
 
-def monitor (op obs : String) : String :=
-  match splitWs op with
-  | [ty, h] =>
-    match hexBytes h with
-    | some bs =>
-      if !known ty then "FAIL bad-op" else
-      match parseObs obs with
-      | .other s => "FAIL decoder-not-total-or-unstable " ++ ((s.splitOn " ").headD "")
-      | o => if holds ty bs o then "ok" else
-          (match o with
-           | .err => "FAIL canonical-encoding-rejected"
-           | _ => "FAIL accepted-value-is-not-the-canonical-form-of-the-input")
-    | none => "FAIL bad-op"
-  | _ => "FAIL bad-op"
+def monitor (opLine obs : String) : String :=
+  match parseOp opLine with
+  | some op =>
+    if !known op.ty then "FAIL bad-op" else
+    let o := parseObs obs
+    if !propHolds op.wf op.input o then
+      (match o with
+       | .other s => "FAIL decoder-not-total " ++ ((s.splitOn " ").headD "")
+       | .err => "FAIL marshalled-well-formed-value-rejected"
+       | .ok _ idem => if idem then "FAIL round-trip-gives-different-bytes" else "FAIL accepted-value-not-idempotent")
+    else if !specHolds op.orc op.ty op.input o then
+      (match o with
+       | .err => "FAIL canonical-encoding-rejected"
+       | _ => "FAIL accepted-value-is-not-the-canonical-form-of-the-input")
+    else "ok"
+  | none => "FAIL bad-op"
 
 def main (args : List String) : IO UInt32 := driverMain model monitor args
